@@ -74,7 +74,31 @@ RItem(s, i, d, inFun) ==
 RSeq(s, i, n, d, inFun) == IF n = 0 THEN <<>> ELSE <<RItem(s, i, d, inFun)>> \o RSeq(s, i + 1009, n - 1, d, inFun)
 Randoms == SelectSeq([k \in 1..NRandom |-> RSeq(SeedProp * 8192 + k, 1, 4 + RandInt(SeedProp, k, 4), 3, FALSE)], LAMBDA x : InDomainSeq(x, {}))
 
-All == SelectSeq(SeqN(Budget, MaxDepth, FALSE), LAMBDA x : InDomainSeq(x, {})) \o Randoms
+(* lifetime: a scope entered again is a NEW scope - what was declared in an earlier entry (variables, and functions
+   closing over them) is not what the later entry sees *)
+NumL(i) == Lit(N(i))
+Plus(a, b) == Bin("+", a, b)
+Loop3(body) == SFor(SVar("i", NumL(0)), Bin("<", Id("i"), NumL(3)), Asg("i", Plus(Id("i"), NumL(1))), SBlock(body))
+Fixed == <<
+  << Loop3(<< SVar("x", Bin("*", Id("i"), NumL(10))), SFun("g", <<>>, <<SReturn(Id("x"))>>), SPrint(Call(Id("g"), <<>>)) >>) >>,
+  << SFun("outer", <<"n">>, << SVar("m", Plus(Id("n"), NumL(100))), SFun("h", <<>>, <<SReturn(Id("m"))>>), SReturn(Call(Id("h"), <<>>)) >>),
+     SPrint(Call(Id("outer"), <<NumL(1)>>)), SPrint(Call(Id("outer"), <<NumL(2)>>)) >>,
+  << SVar("keep", Lit(VNil)),
+     Loop3(<< SVar("x", Id("i")), SFun("g", <<>>, <<SExpr(Asg("x", Plus(Id("x"), NumL(1)))), SReturn(Id("x"))>>),
+              SIf(Bin("==", Id("i"), NumL(0)), SExpr(Asg("keep", Id("g"))), None), SPrint(Call(Id("g"), <<>>)), SPrint(Call(Id("keep"), <<>>)) >>) >>,
+  << SVar("i", NumL(0)), SWhile(Bin("<", Id("i"), NumL(3)), SBlock(<< SVar("a", None), SPrint(Id("a")), SExpr(Asg("a", Id("i"))), SPrint(Id("a")), SExpr(Asg("i", Plus(Id("i"), NumL(1)))) >>)) >>,
+  << SFun("p", <<"a">>, << SBlock(<< SVar("b", Plus(Id("a"), NumL(1))), SBlock(<< SVar("a", Plus(Id("b"), NumL(1))), SPrint(Id("a")) >>), SPrint(Id("a")), SPrint(Id("b")) >>), SPrint(Id("a")) >>),
+     SExpr(Call(Id("p"), <<NumL(1)>>)), SExpr(Call(Id("p"), <<NumL(5)>>)) >>,
+  << SFun("r", <<"n">>, << SVar("loc", Id("n")), SIf(Bin(">", Id("n"), NumL(0)), SBlock(<< SVar("loc2", Bin("*", Id("n"), NumL(2))), SExpr(Call(Id("r"), <<Bin("-", Id("n"), NumL(1))>>)), SPrint(Id("loc2")) >>), None), SPrint(Id("loc")) >>),
+     SExpr(Call(Id("r"), <<NumL(2)>>)) >>,
+  << SVar("fs", Arr(<<NumL(0), NumL(0)>>)),
+     SFor(SVar("i", NumL(0)), Bin("<", Id("i"), NumL(2)), Asg("i", Plus(Id("i"), NumL(1))),
+          SBlock(<< SVar("c", Bin("*", Id("i"), NumL(100))), SFun("bump", <<>>, <<SExpr(Asg("c", Plus(Id("c"), NumL(1)))), SReturn(Id("c"))>>), SExpr(IAsg(Id("fs"), Id("i"), Id("bump"))) >>)),
+     SPrint(Call(Idx(Id("fs"), NumL(0)), <<>>)), SPrint(Call(Idx(Id("fs"), NumL(1)), <<>>)), SPrint(Call(Idx(Id("fs"), NumL(0)), <<>>)), SPrint(Call(Idx(Id("fs"), NumL(1)), <<>>)) >>,
+  << SBlock(<< SVar("a", NumL(1)), SFun("ga", <<>>, <<SReturn(Id("a"))>>), SBlock(<< SVar("a", NumL(2)), SPrint(Call(Id("ga"), <<>>)), SPrint(Id("a")) >>), SPrint(Call(Id("ga"), <<>>)) >>),
+     SBlock(<< SVar("a", NumL(3)), SFun("ga", <<>>, <<SReturn(Id("a"))>>), SPrint(Call(Id("ga"), <<>>)) >>) >>
+>>
+All == SelectSeq(SeqN(Budget, MaxDepth, FALSE), LAMBDA x : InDomainSeq(x, {})) \o Randoms \o Fixed
 Cases == All
 Programs == [i \in 1..Len(Cases) |-> TagV(LayoutProg(Cases[i], 1), 0)]
 FamProgOf(i) == Programs[i]
@@ -90,7 +114,8 @@ Shape(t) == CASE t.k = "var" -> (IF IsNone(t.c[1]) THEN "U" ELSE IF t.c[1].k = "
               [] t.k = "for" -> "for"
               [] t.k = "block" -> "{}"
               [] OTHER -> t.k
-Cls(i) == LET ss == Cases[i] IN IF ss = <<>> THEN "empty" ELSE Shape(ss[1]) \o ";" \o (IF Len(ss) > 1 THEN Shape(ss[2]) ELSE "") \o ";.."
+NFixed0 == Len(All) - Len(Fixed)
+Cls(i) == LET ss == Cases[i] IN IF i > NFixed0 THEN "lifetime" \o IntStr(i - NFixed0) ELSE IF ss = <<>> THEN "empty" ELSE Shape(ss[1]) \o ";" \o (IF Len(ss) > 1 THEN Shape(ss[2]) ELSE "") \o ";.."
 
 EmitInv == (EmitOn /\ Final) =>
    Emit([fam |-> "scope", cls |-> Cls(pid), key |-> "scope#" \o IntStr(pid), pid |-> pid,
